@@ -404,7 +404,7 @@ def bufmut_put_u64(ctx):
     return _append(ctx, [simp(z3.Extract(63 - 8 * i, 56 - 8 * i, t)) for i in range(8)])
 
 
-@contract(r' as (?:bytes::)?BufMut>::put_slice$|^(?:bytes::)?BytesMut::extend_from_slice$|^<(?:bytes::)?BytesMut as Extend<&u8>>::extend(?:::<.*>)?$|^Vec::<u8>::extend_from_slice$|^String::push_str$|^<(?:std::string::)?String as (?:std::ops::)?AddAssign<&str>>::add_assign$')
+@contract(r' as (?:bytes::)?BufMut>::put_slice$|^(?:bytes::)?BytesMut::extend_from_slice$|^<(?:bytes::)?BytesMut as Extend<&u8>>::extend(?:::<.*>)?$|^Vec::<u8>::extend_from_slice$|^(?:std::string::)?String::push_str$|^<(?:std::string::)?String as (?:std::ops::)?AddAssign<&str>>::add_assign$')
 def bufmut_put_slice(ctx):
     src = BufLoc(ctx.ex, ctx.st, ctx.args[1]).val
     return _append(ctx, src)
